@@ -274,7 +274,10 @@ CspFor(L, h, T, q) ==
        IF blanket THEN {} ELSE on \ off
 
 \* all consistent resolutions of three-valued hits (hs[i] = the set Hit(L[i], q))
-HitVectorsH(hs) == {h \in [DOMAIN hs -> BOOLEAN] : \A i \in DOMAIN hs : h[i] \in hs[i]}
+\* every resolution of the three-valued hits: only the undetermined positions vary (2^|undetermined| vectors)
+HitVectorsH(hs) ==
+  LET unc == {i \in DOMAIN hs : hs[i] = {TRUE, FALSE}} IN
+  { [i \in DOMAIN hs |-> IF i \in unc THEN i \in S ELSE TRUE \in hs[i]] : S \in SUBSET unc }
 IdealVerdictsH(L, T, Res, q, hs) == UNION {VerdictsFor(L, h, T, Res, q) : h \in HitVectorsH(hs)}
 IdealCspH(L, T, q, hs) == {CspFor(L, h, T, q) : h \in HitVectorsH(hs)}
 
